@@ -79,6 +79,10 @@ checks = {
    'Reference-model monitor: every getter of BucketLeapArray / SlidingWindowMetric / BaseStatNode is compared with a naive aligned-bucket multiset model after every step of generated monotone virtual-time histories (hostile deltas: exact bucket/cycle boundaries, idle gaps beyond the array, near-zero times) over sampled valid geometries, plus an exhaustive constructibility grid. Held on the histories executed, nothing more.',
    'Trusts the 150-line reference model ref.Win and the virtual clock; sequential only (concurrency is C09); geometries and histories are sampled, the grid (13x16)^2 is exhaustive.',
    'runtime reference-model monitor (lock-step differential vs aligned-bucket model) under a virtual clock', 'DESIGN.md §3 C08'),
+ 'C20': ('exploration',
+   'Reference-model monitor: one three-state reference breaker per node is stepped with the same completions as the real per-node breakers (chain = default + outlier rule-check and statistic slots; requests routed with TraceCallee, failures with TraceError, clock steps around the retry timeout); for every request FilterNodes() must contain only nodes whose reference breaker rejects at that instant, at most floor(pct x known nodes) of them (node counts 1-20, thorough up to 40; percentages incl. 0.07 / 0.29 / 0.57, thorough every 0.01), and HalfOpenNodes() must equal the passively probed nodes (empty with active recovery). Second engine: recycler scenarios on the real 1 s timer with a control node that never recovers; only after the control node has been observed gone must the recovered node still be known.',
+   'Trusts ref.CB; node order is a map order so sets are compared; the retryer\'s check function always answers false and the recycle interval is the default, so real-time background work does not change breaker state during virtual-time histories; the recycler engine depends on real timers (inconclusive when the control node is not recycled within 5 s).',
+   'runtime reference-model monitor (per-node reference breakers) + real-timer scenario with control observation', 'DESIGN.md §3 C20'),
 }
 not_yet = {}
 hook_commits = []
